@@ -95,6 +95,12 @@ pub fn gcd_bits_required<U: UnsignedLike>(range: U) -> usize {
   range.to_f64().log2().ceil() as usize
 }
 
+// whether the prefix's GCD can be stored in its own metadata
+pub fn gcd_fits_in_prefix_meta<T: NumberLike>(p: &Prefix<T>) -> bool {
+  let bits = gcd_bits_required(p.upper.to_unsigned() - p.lower.to_unsigned());
+  bits >= T::Unsigned::BITS || (p.gcd - T::Unsigned::ONE) >> bits == T::Unsigned::ZERO
+}
+
 // to store gcd, we write and read gcd - 1 in the minimum number of bits
 // since we know gcd <= upper - lower
 pub fn write_gcd<U: UnsignedLike>(range: U, gcd: U, writer: &mut BitWriter) {
